@@ -953,7 +953,9 @@ def check_pair_eq(kind, ea, eb, acc, laws=('eq',)):
             out = 'hash:raises'
         else:
             wrongly_equal = ab and not same_obj and relation(ea, eb) == 'different'
-            if ab and hs[0] != hs[1] and not wrongly_equal:
+            # the law a == b => hash(a) == hash(b) is checked for every equal pair, also for pairs
+            # the oracle expected to be different (an independent law)
+            if ab and hs[0] != hs[1]:
                 acc.violation(dict(check='hash', what='equal-but-hash-differs', kind=kind,
                                    attr=attr_class(lex_attrs(kind, a, b))),
                               pair_case(kind, ea, eb, 'hash'), 'hash(a) == hash(b)', 'differs')
